@@ -3,8 +3,12 @@
 # failures are the 3 always-fail cookie-handling tests.  A few upstream tests use real timers and flake when the machine is
 # loaded: a non-baseline result is retried (up to 3 runs) before it is believed.
 repo=${1:-/repo}
+# some upstream tests listen on one fixed abstract UNIX socket name: runs in parallel clash ("Address already in use").
+# A private network namespace (abstract sockets belong to it) keeps concurrent runs apart where unshare is permitted.
+iso=""
+if unshare -n true 2>/dev/null; then iso="unshare -n"; fi
 for attempt in 1 2 3; do
-  out=$(cd "$repo" && PYTHONDONTWRITEBYTECODE=1 /venv/bin/python -m pytest -q -p no:cacheprovider 2>&1)
+  out=$(cd "$repo" && PYTHONDONTWRITEBYTECODE=1 $iso /venv/bin/python -m pytest -q -p no:cacheprovider 2>&1)
   bad=$(echo "$out" | grep '^FAILED' | grep -v 'DBusCookieCookieHandlingTester::test_\(del_cookie_last\|del_cookie_with_remaining\|make_cookies\)')
   if [ -z "$bad" ] && echo "$out" | tail -1 | grep -q '164 passed'; then echo "$out" | tail -1; echo "baseline ok"; exit 0; fi
 done
